@@ -770,6 +770,17 @@ impl<P: Prims> TrOps<P> {
         None
     }
 
+    /// Every reason for which a transport write may be refused (the property does not fix which one is reported
+    /// when several apply): (one-way violation, does not fit, nonce exhausted).
+    pub fn write_refusals(tr: &Tr, nonce: u64, plen: usize, cap: usize) -> (bool, bool, bool) {
+        (!tr.initiator && tr.oneway, plen + TAGLEN > MAXMSG || plen + TAGLEN > cap, nonce == u64::MAX)
+    }
+
+    /// (one-way violation, longer than 65535, shorter than a tag or payload buffer too small, nonce exhausted)
+    pub fn read_refusals(tr: &Tr, nonce: u64, mlen: usize, cap: usize) -> (bool, bool, bool, bool) {
+        (tr.initiator && tr.oneway, mlen > MAXMSG, mlen < TAGLEN || cap < mlen - TAGLEN, nonce == u64::MAX)
+    }
+
     pub fn precheck_read(tr: &Tr, nonce: u64, mlen: usize, cap: usize) -> Option<RmErr> {
         if mlen > MAXMSG {
             return Some(RmErr::Input);
